@@ -137,6 +137,21 @@ def family(tier, seed):
                                             "s", ("uid",))), {}))
     items.append(("shared", relabel(Program("sh2", If(((Cmp(Id("uid"), "==", Id("other")), R()),
                                                         (Cmp(Id("dev"), "!=", Lit("x")), R(2))), R()), None, ("dev", "uid"))), {}))
+    # return statements whose populations are equal under == but differ in the type of a label (0 / 0.0 / -0.0,
+    # 1 / 1.0, 2 / 2.0): anything that identifies distributions by value (a dict key, a cache) confuses them
+    from vf.ref.dsl import Ret, Group
+
+    def rets(vals, label):
+        return Ret(tuple(Group(Lit(v, text=t), 1, "1") for v, t in vals), label)
+    poly = [
+        ("int-then-float", [(0, "0"), (1, "1")], [(0.0, "0.0"), (1.0, "1.0")]),
+        ("float-then-int", [(2.0, "2.0"), (3.0, "3.0")], [(2, "2"), (3, "3")]),
+        ("neg-zero", [(0.0, "0.0"), (1, "1")], [(-0.0, "-0.0"), (1, "1")]),
+        ("int-then-str", [(1, "1"), (2, "2")], [("1", '"1"'), ("2", '"2"')]),
+    ]
+    for name, va, vb in poly:
+        body = If(((Cmp(Id("x"), "==", Lit(1)), rets(va, 0)), (Cmp(Id("x"), "==", Lit(2)), rets(vb, 1))), rets(va, 2))
+        items.append(("polymorphic", Program(name.replace("-", "_"), body, "s", ("uid",)), {}))
     fam = sf.splitter_family(tier, seed)
     rng.shuffle(fam)
     for bname, p in fam[: (40 if tier == "quick" else 400)]:
